@@ -82,16 +82,16 @@ PROPERTIES = {
     },
     'C09': {
         'units': [ps.RulerCtor, ps.SimpsonWeights, ps.UpdateXProjection, ps.UpdateYProjection, ps.Integrate, ps.Normalize,
-                  ps.Average, ps.Variance, ps.Swap, ps.Assign],
+                  ps.Average, ps.Variance, ps.Swap, ps.Assign, ps.PhaseSpaceCtor, ps.PhaseSpaceCtor8, ps.PhaseSpaceCtor12, ps.PhaseSpaceCopyCtor],
         'lemmas': [ps.lemmas_normalize],
         'native_sweep': {'harness': 'ps_replay', 'runs': [['moments', N_, nb_, sd_] for N_ in (8, 9, 16, 17, 33) for nb_ in (1, 2, 3, 5) for sd_ in (1, 2)]},
         'level': 'proof',
-        'claim': 'normalize scales every cell of bunch n by set/filling (empty buckets to zero) and nothing else; projections are the Simpson-weighted sums; '
+        'claim': 'all four PhaseSpace constructors establish the container sizes of the class invariant, copy nominal shares and given data cell by cell, take over / build the axes, and leave projections, populations and integral as the verified methods derive them from the data (a copy therefore carries the data of its original and the quantities derived from it); normalize scales every cell of bunch n by set/filling (empty buckets to zero) and nothing else; projections are the Simpson-weighted sums; '
                  'integral, mean, variance and rms of bunch n are the stated sums over bunch n own projection and charge only; swap/assignment carry data and everything '
                  'derived from it; unbounded in grid size and bunch count, ideal arithmetic',
         'assumptions': [A_IDEAL, A_LIB, DROPS, 'finite sums are spec functions introduced by unfolding instances of their recursive definitions',
-                        'PhaseSpace constructors (Gaussian start distribution, copy constructor) are not under contract: the copy constructor delegates to the main constructor which recomputes projections and integral by the verified methods'],
-        'uncovered': ['discretisation error of Simpson sums for Gaussians (numerical analysis, not a code property)', 'PhaseSpace constructors'],
+                        'the Gaussian start distribution inside the main PhaseSpace constructor (gaus, setProjection, createFromProjections) is bound to frame-only contracts: which members it may write, not what it writes'],
+        'uncovered': ['discretisation error of Simpson sums for Gaussians (numerical analysis, not a code property)', 'the values of the Gaussian start distribution'],
         'explanation': 'functional postconditions with ghost indices over every PhaseSpace method named by the property',
         'technique': TECH,
     },
@@ -176,7 +176,7 @@ PROPERTIES = {
     },
     'C17': {
         'units': SM_KICK + SM_FP + [sm.IdentityApply, sm.KickMapApplyTo, sm.FokkerPlanckApplyTo,
-                                    ps.RulerCtor, ps.SimpsonWeights, ps.UpdateXProjection, ps.UpdateYProjection, ps.Integrate, ps.Normalize, ps.Average, ps.Variance, ps.Swap, ps.MakePSFromTXTLoop,
+                                    ps.RulerCtor, ps.SimpsonWeights, ps.UpdateXProjection, ps.UpdateYProjection, ps.Integrate, ps.Normalize, ps.Average, ps.Variance, ps.Swap, ps.MakePSFromTXTLoop, ps.PhaseSpaceCtor, ps.PhaseSpaceCtor8, ps.PhaseSpaceCtor12, ps.PhaseSpaceCopyCtor,
                                     ef.PadBunchProfiles, ef.WakePotential, ef.UpdateCSR,
                                     mainspec.MainConfig] + Z_UNITS,
         'leaves': [leaf.UpperPow2Leaf, leaf.FPApplyToLeaf, leaf.KickApplyToLeaf, leaf.PSxLeaf],
@@ -185,7 +185,7 @@ PROPERTIES = {
         'claim': 'every array subscript, pointer range (copy_n/fill_n/inner_product/FFT buffers), float-to-integer conversion, signed overflow, unsigned index product and division in the units under contract '
                  'is proved defined under the class invariants, and main establishes the padded-buffer precondition for every bucket; unbounded in all sizes',
         'assumptions': [A_IDEAL, A_LIB, DROPS, 'libraries are memory safe when their stated preconditions hold', 'documented option domain (see MainConfig.requires and domain_after)'],
-        'uncovered': ['functions not under contract: PhaseSpace constructors, the HDF5 start distribution (HDF5File::readPhaseSpace), the file-opening and line-counting prologue of makePSFromTXT (its particle loop is under contract with std::istream modelled by fail/eof flags), HDF5File, ProgramOptions, Impedance::readData, RotationMap, Display',
+        'uncovered': ['functions not under contract: the Gaussian start distribution inside the PhaseSpace constructor (frame-only), the HDF5 start distribution (HDF5File::readPhaseSpace), the file-opening and line-counting prologue of makePSFromTXT (its particle loop is under contract with std::istream modelled by fail/eof flags), HDF5File, ProgramOptions, Impedance::readData, RotationMap, Display',
                       'uninitialised reads (tables are written before use by construction order, checked only where a unit reads what it wrote)',
                       ],
         'explanation': 'automatic safety obligations of all units',
